@@ -24,7 +24,7 @@ ASSUMPTIONS = ["a forged datagram that carries the right token AND the right sou
                "one over UDP and is not generated",
                "liveness is judged at quiescence only: a request may stay pending iff no matching response and no error "
                "indication was delivered to the endpoint"]
-EXPECTED_PROBES = ["forged_near_token", "forged_random_token", "forged_wrong_ip", "forged_wrong_port", "late_copy", "rst_for_unmatched_con",
+EXPECTED_PROBES = ["shutdown_with_requests_outstanding", "request_submitted_while_shutdown_under_way", "request_submitted_from_inside_a_failure_callback", "forged_near_token", "forged_random_token", "forged_wrong_ip", "forged_wrong_port", "late_copy", "rst_for_unmatched_con",
                    "matched", "failed_by_icmp", "failed_by_giveup", "failed_by_rst", "resolution_failure", "pending_at_quiescence",
                    "dup_response_delivered", "multicast_request_outstanding", "response_before_exchange_end", "peer_request_under_own_token", "partition", "liveness_probe_after_heal"]
 
